@@ -37,6 +37,10 @@ def _cases(tier):
             yield {"mode": "samples", "h": list(h)}
         for h in itertools.combinations_with_replacement(atoms, 5):
             yield {"mode": "list", "h": list(h)}
+    # pseudo-types registered after the generator object exists (register_datetime_classes on a live registry)
+    for h in A.histories(A.STRING_ATOMS + ["null"], 2 if tier == "quick" else 3, 2):
+        yield {"mode": "samples", "h": h, "late": True}
+        yield {"mode": "list", "h": h, "late": True}
     # graph inputs: types after merge_models (second pass for real)
     for spec in A.graph_specs(3 if tier == "quick" else 4):
         for merge in ("default", "exact"):
@@ -63,7 +67,7 @@ def _samples(case):
 
 def _shape(case):
     if "h" in case:
-        return [A.symbol_name(s) for s in case["h"]]
+        return [A.symbol_name(s) for s in case["h"]] + (["late_registration"] if case.get("late") else [])
     return ["G" + A.graph_name(case["g"])]
 
 
@@ -76,7 +80,7 @@ def execute(case):
     execs = 0
     try:
         b = pipeline.build(_samples(case), types=types, dkr=dkr, merge=case.get("merge", "default"),
-                           do_merge=False, names=False)
+                           do_merge=False, names=False, late_types=pipeline.DATETIME_TYPES if case.get("late") else ())
         execs += 1
         meta_c = ir.canon_graph([b.root])
         for clause, path in ir.nf_violations(b.root):
